@@ -145,6 +145,37 @@ theorem new_unreadable (label uuid : Bytes) (cs : List Box) (post : Bytes) (hu :
   unfold readDesc
   simp
 
+/-! ### the accessor path of re-serialisation: `media_type()` then `JUMBFEmbeddedFileDescriptionBox::new` -/
+
+theorem takeWhile_ne_zero : ∀ (m : Bytes), (0 : UInt8) ∉ m → m.takeWhile (· ≠ 0) = m
+  | [], _ => rfl
+  | a :: as, h => by
+    have ha : a ≠ 0 := fun e => h (by simp [e])
+    have hr : (0 : UInt8) ∉ as := fun e => h (by simp [e])
+    have ih := takeWhile_ne_zero as hr
+    simp only [ne_eq, decide_not] at ih
+    simp [List.takeWhile, ha, ih]
+
+theorem toRustStr_of_not_mem {m : Bytes} (h0 : (0 : UInt8) ∉ m) :
+    toRustStr m = if utf8Valid m then m else [] := by
+  unfold toRustStr
+  simp only [takeWhile_ne_zero m h0]
+
+theorem utf8Valid_nil : utf8Valid ([] : Bytes) = true := by decide
+
+/-- what `Store::get_assertion_from_jumbf_store` + `add_assertion_to_jumbf_store` do with the media
+type of an embedded-file assertion (`media_type()` = `toRustStr`, then `new(media_type, None)`) is the
+identity on the written bytes, for **every** media-type byte string without NUL (whatever its case,
+alphabet or UTF-8 validity) and whatever the file name was -/
+theorem bfdb_accessor_ser (m : Bytes) (fn : Option Bytes) (h0 : (0 : UInt8) ∉ m) :
+    (bfdbNew (toRustStr m) none).ser = (Box.bfdb 0 m fn).ser := by
+  rw [toRustStr_of_not_mem h0]
+  by_cases hu : utf8Valid m = true
+  · simp [hu, bfdbNew, cstringNew_of_not_mem h0, Box.ser]
+  · have hu' : utf8Valid m = false := by simpa using hu
+    have hs : strNonEmpty m = false := by simp [strNonEmpty, hu']
+    simp [hu', bfdbNew, cstringNew, Box.ser, bfdbPayload, hs, strNonEmpty_nil]
+
 /-! ### manifest layer -/
 
 theorem firstBrob_none_ser (d : Desc) (cs : List Box) (dec : Bytes → Option Bytes)
